@@ -1,9 +1,225 @@
-(* Props/C04.v — calendar-unit arithmetic follows the wall clock with end-of-month clamping. *)
-From Coq Require Import ZArith Bool.
-From PV Require Import Lib.PyBase Spec.Cal Spec.Zone Model.TzConvert Model.CalendarArith Proofs.C04Facts.
+(* Props/C04.v — calendar-unit arithmetic follows the wall clock with end-of-month clamping.
+   Models: Gen/AddDuration.v (helpers.add_duration, TRANSLATED), Model/CalendarArith.v (DateTime/Date add, subtract, + and -),
+   Model/TzConvert.v (create / add_fixed / add_calendar), Model/Duration.v (Duration.__new__), Spec/Zone.v, Spec/NativeDT.v.
+   Specification side (Proofs/C04Facts.v): ym_add (months since year 0, Proofs/AddDurationFacts.v), clamp_day = min(dim, day),
+   ym_shift (year/month step), wall_shift (exact shift), cal_target = their composition.
+   All amounts are arbitrary integers of either sign. *)
+From Coq Require Import ZArith List Bool.
+From Coq Require Import Floats.SpecFloat.
+From PV Require Import Lib.PyBase Spec.Cal Spec.Zone Spec.NativeDT Spec.TdFloat Proofs.ZoneFacts Proofs.AddDurationFacts Gen.AddDuration.
+From PV Require Import Model.TzConvert Model.Duration Model.CalendarArith Proofs.C04Facts.
+Import ListNotations.
 Open Scope Z_scope.
 
+(* helpers.add_duration (translated) = RuntimeError for time units on a date, else the year/month step (ValueError when the year leaves
+   1..9999) followed by the exact shift of 7*weeks+days, h, m, s, us (OverflowError when the timedelta or the result is out of range) *)
+Theorem add_duration_calendar_spec : forall W isdt Y M Wk D h m s us, wall_in_range W = true ->
+  py_add_duration (mkndt W isdt) Y M Wk D h m s us = cal_spec W isdt Y M Wk D h m s us.
+Proof. exact add_duration_cal. Qed.
+Print Assumptions add_duration_calendar_spec.
+
+(* the year/month step: months-since-epoch arithmetic, the day is min(days in the target month, day), the time of day is kept *)
+Theorem clamp_spec : forall W Y M W1, wall_in_range W = true -> ym_shift W Y M = Ok W1 ->
+  let '(y', m') := ym_add (w_year W) (w_month W) (12 * Y + M) in
+  1 <= y' <= 9999 /\ w_year W1 = y' /\ w_month W1 = m' /\ w_day W1 = Z.min (dim y' m') (w_day W) /\
+  w_tod W1 = w_tod W /\ wall_in_range W1 = true.
+Proof. exact ym_shift_fields. Qed.
+Print Assumptions clamp_spec.
+
+(* DateTime.add with any calendar unit on an aware value: the wall-clock target, normalised by create (C02) with fold 1, zone kept *)
+Theorem add_calendar_spec : forall z fx W f Y M Wk D h m s us, wall_in_range W = true -> any_cal Y M Wk D = true ->
+  dt_add (Aware z fx) W f Y M Wk D h m s us =
+  match cal_target true W Y M (td_total_us (D + 7 * Wk) h m s us) with
+  | Raise e => Raise e
+  | Ok W' => create z fx W' true false
+  end.
+Proof. exact dt_add_calendar. Qed.
+Print Assumptions add_calendar_spec.
+
+Theorem add_naive_spec : forall W f Y M Wk D h m s us, wall_in_range W = true ->
+  dt_add Naive W f Y M Wk D h m s us =
+  match cal_target true W Y M (td_total_us (D + 7 * Wk) h m s us) with
+  | Raise e => Raise e
+  | Ok W' => Ok (W', true)
+  end.
+Proof. exact dt_add_naive. Qed.
+Print Assumptions add_naive_spec.
+
+(* ... and what the normalisation does, for every well-formed zone table *)
+Theorem add_calendar_unique : forall z W Y M Wk D h m s us W' f, wall_in_range W = true -> any_cal Y M Wk D = true ->
+  cal_target true W Y M (td_total_us (D + 7 * Wk) h m s us) = Ok W' ->
+  wf_zone z = true -> wall_unique z (sec W') ->
+  dt_add (Aware z false) W f Y M Wk D h m s us = Ok (W', true) /\
+  (forall u, renders_to z u (sec W') <-> u = sec W' - off_local z (sec W') true).
+Proof. exact add_calendar_unique_l. Qed.
+Print Assumptions add_calendar_unique.
+
+Theorem add_calendar_repeated : forall z W Y M Wk D h m s us W' f, wall_in_range W = true -> any_cal Y M Wk D = true ->
+  cal_target true W Y M (td_total_us (D + 7 * Wk) h m s us) = Ok W' ->
+  wf_zone z = true -> wall_repeated z (sec W') ->
+  dt_add (Aware z false) W f Y M Wk D h m s us = Ok (W', true) /\
+  inst z W' true = W' - MEG * off_local z (sec W') true /\
+  sec W' - off_local z (sec W') false < sec W' - off_local z (sec W') true.
+Proof. exact add_calendar_repeated_l. Qed.
+Print Assumptions add_calendar_repeated.
+
+Theorem add_calendar_skipped : forall z W Y M Wk D h m s us W' f, wall_in_range W = true -> any_cal Y M Wk D = true ->
+  cal_target true W Y M (td_total_us (D + 7 * Wk) h m s us) = Ok W' ->
+  wf2_zone z = true -> wall_skipped z (sec W') ->
+  let g := off_local z (sec W') true - off_local z (sec W') false in
+  0 < g /\
+  (wall_in_range (W' + MEG * g) = true -> dt_add (Aware z false) W f Y M Wk D h m s us = Ok (W' + MEG * g, false)) /\
+  (wall_in_range (W' + MEG * g) = false -> dt_add (Aware z false) W f Y M Wk D h m s us = Raise E_OverflowError) /\
+  (forall f', off_local z (sec W' + g) f' = off_local z (sec W') true) /\
+  sec (W' + MEG * g) = sec W' + g.
+Proof. exact add_calendar_skipped_l. Qed.
+Print Assumptions add_calendar_skipped.
+
+Theorem add_calendar_fixed_offset : forall o W f Y M Wk D h m s us, wall_in_range W = true -> any_cal Y M Wk D = true ->
+  dt_add (Aware (fixed_zone o) true) W f Y M Wk D h m s us =
+  match cal_target true W Y M (td_total_us (D + 7 * Wk) h m s us) with
+  | Raise e => Raise e
+  | Ok W' => Ok (W', false)
+  end.
+Proof. exact add_calendar_fixed_l. Qed.
+Print Assumptions add_calendar_fixed_offset.
+
+(* negative amounts given to add() behave exactly like subtract(), and conversely *)
 Theorem add_neg_is_subtract : forall k W f y mo wk d h m s us,
-  dt_subtract k W f y mo wk d h m s us = dt_add k W f (- y) (- mo) (- wk) (- d) (- h) (- m) (- s) (- us).
+  dt_subtract k W f y mo wk d h m s us = dt_add k W f (- y) (- mo) (- wk) (- d) (- h) (- m) (- s) (- us) /\
+  dt_add k W f y mo wk d h m s us = dt_subtract k W f (- y) (- mo) (- wk) (- d) (- h) (- m) (- s) (- us).
 Proof. exact add_neg_is_subtract_l. Qed.
 Print Assumptions add_neg_is_subtract.
+
+(* Date.add: the same year/month step, then whole days *)
+Theorem date_add_spec : forall W Y M Wk D, wall_in_range W = true ->
+  date_add W Y M Wk D =
+  match ym_shift W Y M with
+  | Raise e => Raise e
+  | Ok W1 =>
+      let n := D + 7 * Wk in
+      if (n <? -999999999) || (999999999 <? n) then Raise E_OverflowError
+      else if wall_in_range (W1 + n * us_per_day) then Ok (W1 + n * us_per_day) else Raise E_OverflowError
+  end.
+Proof. exact date_add_spec_l. Qed.
+Print Assumptions date_add_spec.
+
+Theorem date_stays_midnight : forall W Y M Wk D W', wall_in_range W = true -> W mod us_per_day = 0 ->
+  date_add W Y M Wk D = Ok W' -> W' mod us_per_day = 0.
+Proof. exact date_add_midnight. Qed.
+Print Assumptions date_stays_midnight.
+
+(* Date + / - : a Duration contributes years, months, weeks, remaining_days; a plain timedelta its .days *)
+Theorem date_operators_spec : forall W op,
+  date_add_timedelta W op =
+    match op with
+    | OpTd N => date_add W 0 0 0 (N / 86400000000)
+    | OpDur d => date_add W (d_years d) (d_months d) (d_weeks d) (d_rdays d)
+    | OpIv y mo wk rd _ _ _ _ _ => date_add W y mo wk rd
+    end /\
+  date_sub_timedelta W op =
+    match op with
+    | OpTd N => date_add W 0 0 0 (- (N / 86400000000))
+    | OpDur d => date_add W (- d_years d) (- d_months d) (- d_weeks d) (- d_rdays d)
+    | OpIv y mo wk rd _ _ _ _ _ => date_add W (- y) (- mo) (- wk) (- rd)
+    end.
+Proof. exact date_operators_l. Qed.
+Print Assumptions date_operators_spec.
+
+(* dt + Duration(...) = dt.add(the constructor arguments) *)
+Theorem plus_duration_is_add_signature : forall k W f days seconds us ms minutes hours weeks years months d,
+  duration_new days seconds us ms minutes hours weeks years months = Ok d ->
+  dt_add_timedelta k W f (OpDur d) = dt_add k W f years months weeks days hours minutes seconds (us + ms * 1000).
+Proof. exact plus_duration_sig. Qed.
+Print Assumptions plus_duration_is_add_signature.
+
+(* dt + Interval = dt.add(the Interval's components) *)
+Theorem plus_interval_is_add_components : forall k W f y mo wk rd h mi rs us total,
+  dt_add_timedelta k W f (OpIv y mo wk rd h mi rs us total) = dt_add k W f y mo wk rd h mi rs us.
+Proof. exact plus_interval_components_l. Qed.
+Print Assumptions plus_interval_is_add_components.
+
+(* dt + (-d) = dt.subtract(components of d): always *)
+Theorem sub_components_eq_plus_neg : forall k W f d, wall_in_range W = true -> Z.abs (d_seconds d) < 86400 ->
+  dt_plus_neg k W f d = bind (dur_neg d) (fun _ => dt_sub_components k W f d).
+Proof. exact sub_components_eq_plus_neg_l. Qed.
+Print Assumptions sub_components_eq_plus_neg.
+
+(* `dt - d = dt + (-d)` is FALSE of the code (finding sub-duration-elapsed) *)
+Theorem sub_duration_eq_add_neg_refuted :
+  exists z W f d r1 r2, wf2_zone z = true /\ wall_in_range W = true /\
+    dt_sub_timedelta (Aware z false) W f (OpDur d) = Ok r1 /\
+    dt_plus_neg (Aware z false) W f d = Ok r2 /\ dt_sub_components (Aware z false) W f d = Ok r2 /\
+    fst r1 <> fst r2.
+Proof. exact sub_duration_eq_add_neg_refuted_l. Qed.
+Print Assumptions sub_duration_eq_add_neg_refuted.
+
+(* ... and for an Interval years/months are counted twice (finding sub-interval-double-count) *)
+Theorem sub_interval_double_count_refuted :
+  let z := mkzone 0 [] in
+  let W := wall_of 2021 3 5 6 0 0 0 in
+  dt_sub_timedelta (Aware z false) W false (OpIv 1 2 0 4 6 0 0 0 (sf_of_Z 37087200)) = Ok (wall_of 2018 11 2 0 0 0 0, true) /\
+  dt_add_timedelta (Aware z false) W false (OpIv (-1) (-2) 0 (-4) (-6) 0 0 0 (sf_of_Z (-37087200))) = Ok (wall_of 2020 1 1 0 0 0 0, true) /\
+  wall_of 2021 3 5 6 0 0 0 - wall_of 2020 1 1 0 0 0 0 = 37087200 * 1000000.
+Proof. exact sub_interval_double_count_refuted_l. Qed.
+Print Assumptions sub_interval_double_count_refuted.
+
+(* the region where it holds: naive values, Durations with years or months, Durations below one day
+   (float_exact: the float seconds denote the components exactly — whole seconds, or below 2^32 s) *)
+Theorem sub_duration_eq_add_neg_partial : forall k W f d nd, wall_in_range W = true ->
+  dur_neg d = Ok nd -> float_exact d -> same_route k d ->
+  dt_sub_timedelta k W f (OpDur d) = dt_add_timedelta k W f (OpDur nd).
+Proof. exact sub_duration_eq_add_neg_partial_l. Qed.
+Print Assumptions sub_duration_eq_add_neg_partial.
+
+(* the remaining region (whole days, no years/months, aware): same wall time and instant whenever the target is an ordinary wall time
+   with the offset of the start; only the fold flag differs *)
+Theorem sub_duration_same_offset_partial : forall z W f d nd mins us,
+  wf_zone z = true -> dur_neg d = Ok nd ->
+  d_years d = 0 -> d_months d = 0 -> (d_weeks d <> 0 \/ d_rdays d <> 0) ->
+  fsec_parts (fopp (d_total d)) = Ok (mins, us) -> td_total_us 0 0 mins 0 us = - dur_rest_us d ->
+  let T := - dur_rest_us d in
+  let o := off_local z (sec W) f in
+  -999999999 <= T / us_per_day <= 999999999 ->
+  wall_in_range W = true -> wall_in_range (W - MEG * o) = true -> wall_in_range (W - MEG * o + T) = true -> wall_in_range (W + T) = true ->
+  wall_unique z (sec (W + T)) -> off_local z (sec (W + T)) true = o ->
+  dt_sub_timedelta (Aware z false) W f (OpDur d) = Ok (W + T, fold_utc z (sec (W + T) - o)) /\
+  dt_add_timedelta (Aware z false) W f (OpDur nd) = Ok (W + T, true).
+Proof. exact sub_duration_same_offset_partial_l. Qed.
+Print Assumptions sub_duration_same_offset_partial.
+
+Theorem sub_interval_partial : forall k W f wk rd h mi rs us total mins usx, wall_in_range W = true ->
+  fsec_parts (fopp total) = Ok (mins, usx) -> td_total_us 0 0 mins 0 usx = - td_total_us (rd + 7 * wk) h mi rs us ->
+  (k = Naive \/ (wk = 0 /\ rd = 0)) ->
+  dt_sub_timedelta k W f (OpIv 0 0 wk rd h mi rs us total) =
+  dt_add_timedelta k W f (OpIv 0 0 (- wk) (- rd) (- h) (- mi) (- rs) (- us) (fopp total)).
+Proof. exact sub_interval_partial_l. Qed.
+Print Assumptions sub_interval_partial.
+
+(* non-vacuity *)
+Theorem nonvacuous_float_exact : exists d, duration_new 3 7261 500000 0 0 0 2 0 0 = Ok d /\ float_exact d /\
+  dur_rest_us d = (17 * 86400 + 7261) * 1000000 + 500000.
+Proof. exact float_exact_example. Qed.
+Print Assumptions nonvacuous_float_exact.
+
+Theorem nonvacuous_same_offset :
+  let z := paris13 in let W := wall_of 2013 6 15 12 0 0 0 in
+  exists d nd mins us,
+    duration_new 1 0 0 0 0 0 0 0 0 = Ok d /\ dur_neg d = Ok nd /\ d_years d = 0 /\ d_months d = 0 /\ (d_weeks d <> 0 \/ d_rdays d <> 0) /\
+    fsec_parts (fopp (d_total d)) = Ok (mins, us) /\ td_total_us 0 0 mins 0 us = - dur_rest_us d /\
+    wall_in_range (W - MEG * off_local z (sec W) false + - dur_rest_us d) = true /\
+    wall_unique z (sec (W + - dur_rest_us d)) /\ off_local z (sec (W + - dur_rest_us d)) true = off_local z (sec W) false.
+Proof. exact same_offset_hyps. Qed.
+Print Assumptions nonvacuous_same_offset.
+
+Theorem clamp_and_dst_examples :
+  dt_add Naive (wall_of 2023 1 31 10 0 0 0) false 0 1 0 0 0 0 0 0 = Ok (wall_of 2023 2 28 10 0 0 0, true) /\
+  dt_add Naive (wall_of 2024 1 31 10 0 0 0) false 0 1 0 0 0 0 0 0 = Ok (wall_of 2024 2 29 10 0 0 0, true) /\
+  dt_add Naive (wall_of 2023 3 31 10 0 0 0) false 0 (-13) 0 0 0 0 0 0 = Ok (wall_of 2022 2 28 10 0 0 0, true) /\
+  dt_add Naive (wall_of 9999 12 31 0 0 0 0) false 0 1 0 0 0 0 0 0 = Raise E_ValueError /\
+  wall_skipped paris13 (sec (wall_of 2013 3 31 2 30 0 0)) /\
+  dt_add (Aware paris13 false) (wall_of 2013 3 30 2 30 0 0) false 0 0 0 1 0 0 0 0 = Ok (wall_of 2013 3 31 3 30 0 0, false) /\
+  wall_repeated paris13 (sec (wall_of 2013 10 27 2 30 0 0)) /\
+  dt_add (Aware paris13 false) (wall_of 2013 9 27 2 30 0 0) false 0 1 0 0 0 0 0 0 = Ok (wall_of 2013 10 27 2 30 0 0, true).
+Proof. pose proof clamp_examples. pose proof dst_examples. tauto. Qed.
+Print Assumptions clamp_and_dst_examples.
